@@ -103,11 +103,11 @@ func trBudgetOracle(n int64) (bool, string) {
 	sb, sh, mx := pdf.VerifTrStreamBudget(n), pdf.VerifTrShadingBudget(n), pdf.VerifTrMaxXRefEntries(n)
 	d := fmt.Sprintf("rawLen=%d: StreamBudget=%d ShadingBudget=%d MaxXRefEntries=%d", n, sb, sh, mx)
 	m := max(n, 0)
-	wantSB := int64(8<<20) + min(1024*min(m, 1<<40), 256<<20)
+	wantSB := int64(16<<20) + min(1024*min(m, 1<<40), 256<<20) // StreamBudgetBase is 16 MiB since D-C06-2
 	if sb != wantSB {
 		return false, d + fmt.Sprintf("; StreamBudget should be %d", wantSB)
 	}
-	if m <= 1<<50 && (sh != 8<<20+32*m || mx != 8192+32*m) {
+	if m <= 1<<50 && (sh != 16<<20+32*m || mx != 8192+32*m) {
 		return false, d + "; ShadingBudget/MaxXRefEntries not exact"
 	}
 	return true, d
@@ -342,7 +342,13 @@ func runTRC08(c *Ctx) {
 					return trErr(pdf.VerifTrCCITTValidate(pdf.FilterCCITTFax{Columns: cols, Rows: rows, DamagedRowsBeforeError: dmg}, pdf.V1_7))
 				}))
 				in := func(x int) bool { return x >= 0 && x <= 1<<20 }
-				if got, want := pdf.VerifTrCCITTValidate(pdf.FilterCCITTFax{Columns: cols, Rows: rows, DamagedRowsBeforeError: dmg}, pdf.V1_7) == nil, in(cols) && in(rows) && in(dmg); got != want {
+				// Rows: at most ccittMaxRows(Columns) = max(1, min(65536, 128Mi/Columns)) since D-C06-1 (Columns 0 = 1728)
+				effCols := cols
+				if effCols == 0 {
+					effCols = 1728
+				}
+				rowsOK := rows >= 0 && rows <= max(1, min(1<<16, (128<<20)/max(effCols, 1)))
+				if got, want := pdf.VerifTrCCITTValidate(pdf.FilterCCITTFax{Columns: cols, Rows: rows, DamagedRowsBeforeError: dmg}, pdf.V1_7) == nil, in(cols) && rowsOK && in(dmg); got != want {
 					c.Violate("tr-limits", "tr-filter-validate", fmt.Sprintf("FilterCCITTFax{Columns:%d Rows:%d Damaged:%d}.validate ok=%v, want %v", cols, rows, dmg, got, want), "-")
 				}
 			}
